@@ -114,7 +114,7 @@ def _ok(c):
 # ----------------------------------------------------------------------------- the check
 
 def engine_check(ctx: Ctx, profile, n_quick, n_thorough, nontrivial, monitor=None, tag=None,
-                 post=None, mutate=None, expand=None):
+                 post=None, mutate=None, expand=None, extra_scns=()):
     """Generate scenarios for `ctx.prop`, compare model and implementation, decide.
 
     nontrivial(scn, impl_lines, rt) -> bool ; monitor(scn, impl_lines, rt) -> list[str] failures
@@ -133,6 +133,7 @@ def engine_check(ctx: Ctx, profile, n_quick, n_thorough, nontrivial, monitor=Non
         for fn in sorted(os.listdir(corpus_dir)):
             if fn.endswith(".json"):
                 scns.append(scn_from_json(open(os.path.join(corpus_dir, fn)).read()))
+    scns = scns + list(extra_scns)
     n_corpus = len(scns)
     i = 0
     chunk = 100
